@@ -322,3 +322,39 @@ func objName(o types.Object) string {
 	}
 	return o.Name()
 }
+
+func init() {
+	old := All["C17"].Run
+	All["C17"].Run = func(c *an.Ctx) {
+		old(c)
+		c17fileBoundary(c)
+	}
+	All["C17"].Rules += " R6"
+}
+
+// c17fileBoundary — C17.R6.  The entry log is a list of files; slotGe maps a raft index to
+// (file, slot).  An index that is exactly the first index of a rotated file lives in slot 0 of
+// THAT file; resolving it in the preceding file yields that file's end position, which
+// seekEntry reports as ErrUnavailable although the index lies inside [first, last] — Term and
+// CreateSnapshot then fail at every file boundary.
+func c17fileBoundary(c *an.Ctx) {
+	const RL = "lib/raftlog"
+	r := c.Rule("C17.R6", "K-GUARD", RL+":(*entryLog).slotGe — an index equal to a file's first index resolves to slot 0 of that file")
+	f := fn(r, RL+":entryLog.slotGe")
+	if f == nil {
+		return
+	}
+	rets := f.Find(an.MReturn("(fileIdx, 0)", func(g *an.Fn, rs *ast.ReturnStmt) bool {
+		if len(rs.Results) != 2 {
+			return false
+		}
+		tv, ok := g.Info.Types[rs.Results[1]]
+		return ok && tv.Value != nil && tv.Value.String() == "0"
+	}))
+	if rets.Len() == 0 {
+		r.AddSites(1)
+		r.Fail(f.Name+": boundary case", c.P.Pos(f.Body.Pos()), "slotGe has no return of slot 0 for an index that equals a file's first index: such an index is resolved in the preceding file, whose end position seekEntry reports as unavailable")
+		return
+	}
+	f.Guarded(r, rets, "slot 0 of file i exactly when raftIndex == files[i].firstIndex()", an.AtomLike(`^p0==recv\.files\[local\(\w+\)\]\.firstIndex\(\)$`, true))
+}
